@@ -17,3 +17,6 @@ func VerifRefWithMailbox(path string, mb vivid.Mailbox) *Ref {
 
 // VerifEventStream returns the system's event stream without going through the root context.
 func VerifEventStream(s *System) vivid.EventStream { return s.eventStream }
+
+// VerifActorOf returns the actor instance behind a context.
+func VerifActorOf(c *Context) vivid.Actor { return c.actor }
